@@ -539,6 +539,11 @@ def gen_any(rnd):
     return reify_other(rnd.choice(OTHER_VALUES))
 
 
+# the elements of a valid Array/Deque(items=[...]) value PAST the declared positions: any object at all by default;
+# a check whose property speaks of serializable instances only (C05) sets a generator of JSON values here
+EXTRA_ITEM_GEN = None
+
+
 def gen_valid(rnd, f, classes=None, depth=0):
     """A value intended to conform to f (not guaranteed: multi-field wrappers and interacting
     constraints can defeat it; the harness measures the realised accept rate)."""
@@ -584,7 +589,7 @@ def gen_valid(rnd, f, classes=None, depth=0):
         elif t == "seqeach":
             items = [sub(f["item"]) for _ in range(n)]
         elif t == "seqpos":
-            items = [sub(f["items"][i]) if i < len(f["items"]) else gen_any(rnd) for i in range(n)]
+            items = [sub(f["items"][i]) if i < len(f["items"]) else (EXTRA_ITEM_GEN or gen_any)(rnd) for i in range(n)]
         elif t == "set":
             items = [sub(f["item"]) if f.get("item") else gen_hashable(rnd) for _ in range(n)]
             return mk_set(rnd.random() < 0.15, items)
